@@ -454,6 +454,90 @@ func execC09Bubble(r *kernel.Run, s C09Spec) {
 	r.Sample(s)
 }
 
+// Exhaustive sub-space walked by the thorough tier: at most 2 revocations, 2 witnesses with every
+// issue index and every revocation choice, 2 update windows with every (s, t), every sequence of at
+// most 3 deliveries (witness, update, shared or fresh object), in-memory objects.
+func c09WitConfigs(nrev int) []c09Wit {
+	var out []c09Wit
+	for at := 0; at <= nrev; at++ {
+		out = append(out, c09Wit{IssuedAt: at})
+		for rv := at + 1; rv <= nrev; rv++ {
+			out = append(out, c09Wit{IssuedAt: at, RevokedAt: rv})
+		}
+	}
+	return out
+}
+
+func c09Windows(nrev int) []c09Upd {
+	var out []c09Upd
+	for t := 0; t <= nrev; t++ {
+		for s := 0; s <= t+1; s++ {
+			out = append(out, c09Upd{S: s, T: t})
+		}
+	}
+	return out
+}
+
+func c09OpSeqs() [][]c09Op {
+	var single []c09Op
+	for w := 0; w < 2; w++ {
+		for u := 0; u < 2; u++ {
+			for _, fresh := range []bool{false, true} {
+				single = append(single, c09Op{Kind: 0, W: w, U: u, Fresh: fresh})
+			}
+		}
+	}
+	var out [][]c09Op
+	for _, a := range single {
+		out = append(out, []c09Op{a})
+		for _, b := range single {
+			out = append(out, []c09Op{a, b})
+			for _, c := range single {
+				out = append(out, []c09Op{a, b, c})
+			}
+		}
+	}
+	return out
+}
+
+type c09EnumDims struct {
+	nrev       int
+	wits, wins int
+}
+
+var c09Seqs = c09OpSeqs()
+
+func c09EnumLayout() (dims []c09EnumDims, total int) {
+	for nrev := 0; nrev <= 2; nrev++ {
+		d := c09EnumDims{nrev, len(c09WitConfigs(nrev)), len(c09Windows(nrev))}
+		dims = append(dims, d)
+		total += d.wits * d.wits * d.wins * d.wins * len(c09Seqs)
+	}
+	return
+}
+
+func c09EnumSpec(i int) C09Spec {
+	dims, _ := c09EnumLayout()
+	for _, d := range dims {
+		block := d.wits * d.wits * d.wins * d.wins * len(c09Seqs)
+		if i >= block {
+			i -= block
+			continue
+		}
+		wc, wn := c09WitConfigs(d.nrev), c09Windows(d.nrev)
+		s := C09Spec{Key: "toy256-0", LibSeed: uint64(i), NRev: d.nrev}
+		s.Ops = c09Seqs[i%len(c09Seqs)]
+		i /= len(c09Seqs)
+		s.Upds = []c09Upd{wn[i%d.wins], wn[(i/d.wins)%d.wins]}
+		i /= d.wins * d.wins
+		s.Wits = []c09Wit{wc[i%d.wits], wc[(i/d.wits)%d.wits]}
+		return s
+	}
+	panic("enumeration index out of range")
+}
+
 func TestC09(t *testing.T) {
-	RunProp(t, Prop[C09Spec]{ID: "C09", Draw: drawC09, Exec: execC09})
+	_, total := c09EnumLayout()
+	RunProp(t, Prop[C09Spec]{ID: "C09", Draw: drawC09, Exec: execC09,
+		EnumCount: func() int { return total }, EnumSpec: c09EnumSpec})
 }
